@@ -1213,7 +1213,7 @@ func (s *State) evalForInteger(fe *ast.ForExpression, start *int64, end int64, n
 				return s.Errorf("for loop unexpected control type %s", r.ControlType.String())
 			}
 		default:
-			lastEval = object.CopyRegister(nextEval) // the value now, not the register whose value keeps changing.
+			lastEval = object.Value(nextEval) // the value now: not the register, nor a reference to a variable, whose value keeps changing.
 		}
 	}
 	return lastEval
@@ -1294,7 +1294,7 @@ func (s *State) evalForList(fe *ast.ForExpression, list object.Object, name stri
 				return s.Errorf("for loop unexpected control type %s", r.ControlType.String())
 			}
 		default:
-			lastEval = object.CopyRegister(nextEval) // the value now, not the register whose value keeps changing.
+			lastEval = object.Value(nextEval) // the value now: not the register, nor a reference to a variable, whose value keeps changing.
 		}
 	}
 	return lastEval
@@ -1331,7 +1331,7 @@ func (s *State) evalForExpression(fe *ast.ForExpression) object.Object {
 					return r
 				}
 			default:
-				lastEval = object.CopyRegister(nextEval)
+				lastEval = object.Value(nextEval)
 			}
 		case object.FALSE, object.NULL:
 			if log.LogVerbose() {
